@@ -47,6 +47,8 @@ int main(int argc, char** argv) {
                 else if (pt == CARQUET_PHYSICAL_INT96) st = carquet_encode_plain_int96((carquet_int96_t*)in, count, &buf); else if (pt == CARQUET_PHYSICAL_FLOAT) st = carquet_encode_plain_float((float*)in, count, &buf); else if (pt == CARQUET_PHYSICAL_DOUBLE) st = carquet_encode_plain_double((double*)in, count, &buf);
                 else if (pt == CARQUET_PHYSICAL_FIXED_LEN_BYTE_ARRAY) st = carquet_encode_plain_fixed_byte_array(in, count, (int32_t)p2, &buf); else { uint8_t** own; carquet_byte_array_t* a = parse_ba(in, len, count, &own); st = carquet_encode_plain_byte_array(a, count, &buf); for (uint32_t i = 0; i < count; i++) free(own[i]); free(own); free(a); }
                 out_rec(o, (uint32_t)st, (uint32_t)buf.size, buf.data, buf.size); break; }
+            case 99: { /* one value, a run of (int64) length given in the payload, one more value: the run does not fit a single run header */ int64_t run; uint32_t v; memcpy(&v, in, 4); memcpy(&run, in + 4, 8); carquet_rle_encoder_t se; carquet_rle_encoder_init(&se, &buf, (int)p1);
+                st = carquet_rle_encoder_put(&se, 5 & ((1u << p1) - 1)); if (st == CARQUET_OK) st = carquet_rle_encoder_put_repeat(&se, v, run); if (st == CARQUET_OK) st = carquet_rle_encoder_put(&se, 2 & ((1u << p1) - 1)); if (st == CARQUET_OK) st = carquet_rle_encoder_flush(&se); out_rec(o, (uint32_t)st, (uint32_t)buf.size, buf.data, buf.size); break; }
             case 1: if (!p2) st = carquet_rle_encode_all((uint32_t*)in, count, (int)p1, &buf);
                     else { /* the streaming encoder fed run by run: put_repeat for whole runs and for parts of runs, put otherwise (chosen by p2) */ const uint32_t* v = (const uint32_t*)in; carquet_rle_encoder_t se; carquet_rle_encoder_init(&se, &buf, (int)p1); uint64_t plan = (uint64_t)p2 * 0x9E3779B97F4A7C15ULL + count;
                         for (uint32_t i = 0; i < count && st == CARQUET_OK;) { uint32_t j = i; while (j < count && v[j] == v[i]) j++; int64_t run = (int64_t)j - i; plan = plan * 6364136223846793005ULL + 1442695040888963407ULL; int mode = (int)((plan >> 33) % 3);
